@@ -1,6 +1,7 @@
 import KitProofs.Lemmas.Processor
 import KitProofs.Lemmas.ProcessorProgress
 import KitProofs.Lemmas.Queue
+import KitProofs.Lemmas.Heap
 /-!
 # C06 — queue.Processor: live items run exactly once, on time, in order; none stranded
 
@@ -213,6 +214,28 @@ theorem sorted_list_refines_spec :
    fun _ _ h => refines_peek h,
    fun sq _ h r hp => ⟨by have := refines_peek h; simp only [SortedQ.peek] at this; simp only [SortedQ.pop] at hp; rw [hp] at this; exact this,
      refines_pop h hp⟩⟩
+
+/-- The binary heap with stored indices — `container/heap`'s `Push`/`Pop`/`Remove`/`Fix` with `up` and
+`down` exactly as `queue.go` drives them, over entries whose `index` field is maintained by `Swap` —
+refines the same specification: heap order, stored index = position and one entry per key are
+invariants; `Insert`-with-replace, `Remove`, `Pop` change the set of live items as the specification
+says; `Peek`/`Pop` return a minimal item (whatever the tie-break). -/
+theorem heap_refines_spec :
+    Heap.HRefines (#[] : Heap.H κ ν) [] ∧
+    (∀ (h : Heap.H κ ν) q, Heap.HRefines h q → ∀ r, Heap.HRefines (Heap.insert h r) (Queue.insert q r)) ∧
+    (∀ (h : Heap.H κ ν) q, Heap.HRefines h q → ∀ k, Heap.HRefines (Heap.remove h k) (remove q k)) ∧
+    (∀ (h : Heap.H κ ν) q, Heap.HRefines h q → IsHead q (Heap.peek h)) ∧
+    (∀ (h : Heap.H κ ν) q, Heap.HRefines h q →
+      match (Heap.pop h).1 with
+      | none => q = [] ∧ (Heap.pop h).2 = h
+      | some r => IsHead q (some r) ∧ Heap.HRefines (Heap.pop h).2 (pop q r)) :=
+  ⟨Heap.hrefines_empty, fun _ _ hr r => Heap.hrefines_insert hr r, fun _ _ hr k => Heap.hrefines_remove hr k,
+   fun _ _ hr => Heap.hrefines_peek hr, fun _ _ hr => Heap.hrefines_pop hr⟩
+
+/-- Stored indices: in a heap that represents a queue every entry's `index` field is its position
+(what `queue.Remove(key)` and the replace path of `queue.Insert` rely on). -/
+theorem heap_indices_consistent {h : Heap.H κ ν} {q : List (Item κ ν)} (hr : Heap.HRefines h q) :
+    ∀ (k : Nat) (e : Heap.Entry κ ν), h[k]? = some e → e.index = (k : Int) := hr.1.idx
 
 /-! ## facts regenerated from `processor.go` on every run (T1) -/
 
